@@ -610,7 +610,7 @@ def rule_r4_r7(prog, res, tier):
                             'instead of travelling unchanged' %
                             unparse(v)[:60])
     res.floor('R7', 'out_error stores', n7, 6)
-    res.floor('R4', 'except-Fault stores', n4, 3)
+    res.floor('R4', 'except-Fault stores', n4, 1)
 
 
 # ------------------------------------------------------------------- R5
